@@ -15,6 +15,9 @@
 // derives the same; every derived key works through the public primitive factories.
 // A keyset.Config handing the factory doctored key derivers reaches the factory's error paths (id
 // requirement of the derived key ≠ key id) and its legacy-primitive wrapper.
+// prefix.go: hand-written serialized deriver keysets over the (entry prefix type × template prefix
+// type × key type) grid (!V accept, behaviour lines !X / !A / !G for the entry's prefix type).
+// history.go: one deriver object, one salt buffer overwritten / re-sliced / restored between calls.
 package main
 
 import (
@@ -1376,6 +1379,19 @@ func main() {
 		default:
 			w.negativeCase()
 		}
+	}
+	// doctored serialized keysets: the (entry prefix type × template prefix type × key type) grid, then random ones
+	w.prefixGrid(hlib.N(1, 5), tape.Reset)
+	for c, m := 0, hlib.N(500, 5000); c < m; c++ {
+		o.Case()
+		tape.Reset()
+		w.prefixRandom()
+	}
+	// histories on one deriver object with one salt buffer
+	for c, m := 0, hlib.N(400, 4000); c < m; c++ {
+		o.Case()
+		tape.Reset()
+		w.historyCase()
 	}
 }
 
